@@ -132,6 +132,18 @@ CLAIMED["C17"] = (
     "copy=False hands ownership to the state by contract and dictionaries passed to from_dict/update_from_dict are user input; neither is scribbled on.",
     "DESIGN.md §2 C17",
 )
+CLAIMED["C08"] = (
+    "fault_enumeration",
+    "property-based testing (Hypothesis) of save/load/resume differentials against snapshots taken at save time + exhaustive process-death injection (forked child dies before/after every IO call and at byte offsets inside every write) against a loadable-old-or-new oracle",
+    "Every checkpoint written by a generated run (all indices and the final one; pool objects, integer pools, blobs, clustering) is loaded into "
+    "a freshly constructed sampler and compared bit for bit with a snapshot taken at the moment of the save, then resumed from (prefix "
+    "bit-identical, contiguous iteration numbers, calls = restored + counted, monotone beta, run postconditions). The save itself is executed "
+    "in a forked child once per crash point: the IO calls it makes are enumerated by a dry run and the child is killed before and after each "
+    "one and at offsets inside each write, with the final name absent or holding an older checkpoint; the final name must then be absent or "
+    "hold a complete checkpoint equal to the old or the new state. Enumeration is exhaustive over IO-call boundaries, sampled inside writes.",
+    "Process death only (no power loss: fsync durability is not observable from user space). IO is observed through open/io.open, file write/flush, os.fsync/replace/rename.",
+    "DESIGN.md §2 C08",
+)
 
 ALL = [f"C{i:02d}" for i in range(1, 21)]
 
